@@ -1007,7 +1007,7 @@ Proof. intros H. destruct r; cbn; auto; (split; [auto|apply tab_frame_refl]). Qe
 
 Lemma bind_memory_inv v s image res off : VamInvU c v [] [] -> let '(v', r) := bind_memory v s image res off in res_post v v' s r.
 Proof.
-  intros HI. unfold bind_memory. destruct (res =? 0); [apply res_post_refl; auto|]. destruct (negb _); [apply res_post_refl; auto|].
+  intros HI. unfold bind_memory. destruct (res =? 0); [apply res_post_refl; auto|]. destruct (negb _); [apply res_post_refl; auto|]. destruct (off <? 0); [apply res_post_refl; auto|].
   match goal with |- context [match ?t with OK _ => _ | ER _ => _ | PANIC => _ | STUCK => _ end] => destruct t as [o|code| |] end;
     try (apply res_post_refl; auto); try exact I.
   pose proof (dev_bind_same (v_m v) image res (a_mem (get_alloc v s)) o) as H.
